@@ -40,6 +40,12 @@ def make_gen(tag, widths_hi=70):
         pool.any = any_
         pool.nonzero = lambda ref, w: ref
         params, ins, ows = k.plan(rng, pool)
+        for _ in range(20):
+            if not params.get('amb'):
+                break
+            pool.inputs.clear()
+            pool.sigs.clear()
+            params, ins, ows = k.plan(rng, pool)
         nz = [1] if 'div' in k.tags else []          # divisor: never zero, never registered
         nodes = []
         bins = []
@@ -60,6 +66,13 @@ def make_gen(tag, widths_hi=70):
             outs.append('n%d.0' % nid)
         d = {'inputs': pool.inputs, 'nodes': nodes, 'outputs': outs + ['n%d.%d' % (bid, j) for j in range(len(ows))],
              'order': [n['id'] for n in nodes], 'block': bid, 'nonzero_inputs': [int(ins[j][1:]) for j in nz]}
+        # wire names are unique per owner only: an inner wire may carry the name of a wire of the enclosing system
+        inner = [r for r in bins if r[0] == 'n']
+        if inner and len(pool.inputs) > 1 and rng.random() < 0.15:
+            r = rng.choice(inner)
+            src = nodes[netlist.parse_ref(r)[1]]['ins'][0]
+            other = rng.choice([i['name'] for i in pool.inputs if i['name'] != src])
+            d['names'] = {r: other}
         order = list(d['order'])
         if rng.random() < 0.5:
             rng.shuffle(order)
@@ -77,13 +90,17 @@ def make_gen(tag, widths_hi=70):
                 elif sr.random() < 0.04:
                     vec[j] = 0
             prev = vec
-            steps.append({'vec': vec, 'faults': [f for f in ('resort', 'sim_restart', 'extra_settle') if fr.random() < 0.06]})
+            step = {'vec': vec, 'faults': [f for f in ('resort', 'sim_restart', 'extra_settle') if fr.random() < 0.06]}
+            if k.name in ('ShiftLeftConstant', 'ShiftRightConstant') and fr.random() < 0.08:
+                step['param_n'] = fr.randint(0, ows[0] + 2)      # the shift amount is a block parameter: it is re-assigned between cycles
+            steps.append(step)
         return {'design': d, 'order': order, 'perm': rs.sub('perm') if fr.random() < 0.7 else None, 'steps': steps}
     return gen
 
 
 def run(scn, log, st):
-    d = scn['design']
+    import copy
+    d = copy.deepcopy(scn['design'])      # the run updates block parameters in its private copy
     blk = next(n for n in d['nodes'] if n['id'] == d['block'])
     log.add('block', blk['kind'], repr(sorted(blk['p'].items())), [netlist.sig_widths(d)[r] for r in blk['ins']], blk['ow'])
     b = netlist.Built(d).build(scn['order'])
@@ -113,6 +130,10 @@ def run(scn, log, st):
             else:
                 sim.propagateAll()
                 st.fault('extra_settle')
+        if step.get('param_n') is not None:
+            b.objs[d['block']].addParameter('n', step['param_n'])
+            blk['p'] = dict(blk['p'], n=step['param_n'])
+            st.fault('param_update')
         b.set_inputs(step['vec'])
         ref.set_inputs(step['vec'])
         ref.settle()
